@@ -82,4 +82,37 @@ def discovered (own : USig) (resolve : RM → RVal) (calls : Option (List CallRe
     | .error .unknownForwards => .ok own
     | .error e => .error e
 
+/-- `autoforwards_function(func, args, kwargs)`: a signature, or UnknownForwards -/
+def autoFn (own : USig) (resolve : RM → RVal) (calls : Option (List CallRec)) : Except Err USig :=
+  match calls with
+  | none => .error .unknownForwards
+  | some cs => autoforwardsAst own resolve cs
+
+/-- `forged_signature(bound method)`: `autoforwards_method` — the function is examined with the
+    instance bound to its first parameter (that is inside `resolve`), and the result loses one
+    positional; when that is impossible (as after `fix:` D38) or discovery gives up, the plain
+    signature of the bound method, `mask(own, 1)` -/
+def discoveredMethod (own : USig) (resolve : RM → RVal) (calls : Option (List CallRec)) : Except Err USig :=
+  let plain := mask own 1 [] {}
+  match autoFn own resolve calls with
+  | .ok s => (match mask s 1 [] {} with
+              | .ok r => .ok r
+              | .error _ => plain)
+  | .error .unknownForwards => plain
+  | .error e => .error e
+
+/-- `forged_signature(functools.partial(f, *n positionals, **kw))`: `autoforwards_partial` — `f` is
+    examined with the bound positionals known (inside `resolve`), and the bound arguments are then
+    taken out of the discovered signature in partial mode; when they do not fit it (as after `fix:`
+    D35) or discovery gives up, the plain signature of the partial object -/
+def discoveredPartial (own : USig) (resolve : RM → RVal) (calls : Option (List CallRec))
+    (n : Nat) (kw : List (Nat × Nat)) (pobj : Nat) : Except Err USig :=
+  let plain := maskPartial own n kw pobj
+  match autoFn own resolve calls with
+  | .ok s => (match maskPartial s n kw pobj with
+              | .ok r => .ok r
+              | .error _ => plain)
+  | .error .unknownForwards => plain
+  | .error e => .error e
+
 end SV
